@@ -877,6 +877,98 @@ theorem checkData_c01 (cfg : Cfg) (a : A) (h : Hdr) (evs : List Ev)
       rw [this, e4]
       exact errExt_foldl _ _ (fun x y => errExt_foldl _ _ (fun x' y' => errExt_chk _ _ _ _ _ (by simp)) _ _) _ _
 
+/-! ## `checkData`: all its clauses -/
+
+/-- a module that subscribes to one of the manager's own notices (CLIENT_CLOSED, FAILED_MESSAGE, RTMA_LOG*) or to everything -/
+def hearsNotices (cfg : Cfg) (m : AMod) : Bool := m.subAll || m.types.any (fun ty => ty == cfg.mtClosed || inGuard cfg ty)
+
+/-- the subscribers the published frame cannot be handed to -/
+def dundeliv (cfg : Cfg) (a : A) (h : Hdr) : List AMod :=
+  (a.mods.filter (fun m => m.alive && subscribed m h.mtype)).filter (fun m => (h.dest == 0 || m.modId == h.dest) &&
+      ((!m.isLogger && !a.w.contains m.uid) || (ready a m && a.failing m.uid && !hearsNotices cfg m)))
+
+/-- who must hear about it -/
+def dobservers (cfg : Cfg) (a : A) : List AMod :=
+  a.mods.filter (fun m => m.alive && subscribed m cfg.mtFailed && ready a m && !a.failing m.uid)
+
+theorem checkData_ok (cfg : Cfg) (a : A) (h : Hdr) (evs : List Ev)
+    (c1 : (dcopies evs).length = (dmine h.k evs).length)
+    (c2 : ∀ p ∈ dmine h.k evs, p.2.2.mtype = h.mtype ∧ p.2.2.src = h.src ∧ p.2.2.dest = h.dest ∧
+      p.2.2.destHost = h.destHost ∧ (p.2.2.nbytes : Int) = h.nbytes)
+    (c3 : h.mtype ≠ cfg.allTypes → ∀ m ∈ dexpected cfg a h, ((dmine h.k evs).filter (·.1 == m.uid)).length = 1)
+    (c4 : h.mtype ≠ cfg.allTypes → ∀ p ∈ dmine h.k evs, (dexpected cfg a h).any (·.uid == p.1) = true)
+    (c5 : h.mtype ≠ cfg.allTypes → inRangeH cfg h = true → inGuard cfg h.mtype = false →
+      ∀ o ∈ dobservers cfg a, ∀ m ∈ dundeliv cfg a h,
+        ((dundeliv cfg a h).filter (·.modId == m.modId)).length ≤
+          ((sends evs).filter (fun p => p.1 == o.uid && p.2.2.body == .failed m.modId h.mtype h.src h.dest)).length) :
+    checkData cfg a h evs = a := by
+  unfold checkData
+  extract_lets t inRange copies mine a1 a2 subs expected a3 a4 hears undeliv observers a5
+  have hcop : copies = dcopies evs := rfl
+  have hmine : mine = dmine h.k evs := rfl
+  have e1 : a1 = a := by
+    show a.chk _ _ _ = a
+    exact chk_of _ _ _ _ (by rw [hcop, hmine, c1]; exact beq_self_eq_true _)
+  have e2 : a2 = a := by
+    show a1.chk _ _ _ = a
+    rw [e1]
+    refine chk_of _ _ _ _ ?_
+    rw [List.all_eq_true]
+    intro p hp
+    obtain ⟨q1, q2, q3, q4, q5⟩ := c2 p (by rw [← hmine]; exact hp)
+    simp [t, q1, q2, q3, q4, q5]
+  split
+  · exact e2
+  · rename_i hta
+    have hta' : h.mtype ≠ cfg.allTypes := by simpa [t] using hta
+    have hexp : expected = dexpected cfg a h := by
+      show (if inRange = true then _ else []) = _
+      unfold dexpected
+      have : inRange = inRangeH cfg h := rfl
+      rw [this]
+      split
+      · show List.filter _ (List.filter _ a2.mods) = _
+        rw [e2]
+      · rfl
+    have e3 : a3 = a := by
+      show List.foldl _ a2 expected = a
+      rw [e2]
+      apply foldl_fix
+      intro m hm
+      refine chk_of _ _ _ _ ?_
+      have := c3 hta' m (by rw [← hexp]; exact hm)
+      rw [hmine, this]; rfl
+    have e4 : a4 = a := by
+      show List.foldl _ a3 mine = a
+      rw [e3]
+      apply foldl_fix
+      intro p hp
+      refine chk_of _ _ _ _ ?_
+      rw [hexp]
+      exact c4 hta' p (by rw [← hmine]; exact hp)
+    split
+    · exact e4
+    · rename_i hgd
+      have hgd' : inRangeH cfg h = true ∧ inGuard cfg h.mtype = false := by
+        have : inRange = inRangeH cfg h := rfl
+        rw [← this]
+        simpa [t] using hgd
+      have hund : undeliv = dundeliv cfg a h := by
+        show List.filter _ (List.filter _ a2.mods) = _
+        rw [e2, e4]; rfl
+      have hobs : observers = dobservers cfg a := by
+        show List.filter _ a4.mods = _
+        rw [e4]; rfl
+      show List.foldl _ a4 observers = a
+      rw [e4]
+      apply foldl_fix
+      intro o ho
+      apply foldl_fix
+      intro m hm
+      refine chk_of _ _ _ _ ?_
+      rw [hund]
+      exact decide_eq_true (c5 hta' hgd'.1 hgd'.2 o (by rw [← hobs]; exact ho) m (by rw [← hund]; exact hm))
+
 /-! ## `checkConnect`: the C06 clauses pass when the decision is the one the property demands -/
 
 /-- what C06 demands of the (observed) connect decision -/
